@@ -21,7 +21,8 @@ import DSymVerif.Spec.C11
 namespace DSymVerif.SpecC12
 open DSymVerif.SpecC11
 
-def tabKey (t : Tab) : List Int := t.toList.flatMap Array.toList
+/-- a table as one list: number of rows, then the rows one after the other -/
+def tabKey (t : Tab) : List Int := (t.size : Int) :: t.toList.flatMap Array.toList
 
 def lexLt : List Int → List Int → Bool
   | [], [] => false
